@@ -77,6 +77,31 @@ def cmake_rejects(path):
 
 
 def judge_mutant(job, use_cmake=True):
+    # every mutant is judged in a child forked from a process that never parsed anything, so that the verdict does not
+    # depend on which mutants this worker happened to see before (and reproduces from its replay file)
+    return common.in_fork(_judge_mutant, job, use_cmake)
+
+
+def judge_sequence(job):
+    """two faulty modules documented one after the other in ONE process (API use): both must be rejected"""
+    return common.in_fork(_judge_sequence, job)
+
+
+def _judge_sequence(job):
+    (n1, k1, p1, t1), (n2, k2, p2, t2) = job
+    msgs = []
+    r1 = pipeline.document_text(t1)
+    r2 = pipeline.document_text(t2)
+    for which, r, (n, k, p) in (("first", r1, (n1, k1, p1)), ("second", r2, (n2, k2, p2))):
+        if r["page"] is not None:
+            msgs.append(f"silent-sequence: the {which} of two faulty modules documented in one process ({k} at offset {p} "
+                        f"of {n}) yields a page instead of failing")
+    return {"viol": msgs, "obs": common.digest([r1["error"], r2["error"]]), "nt": common.digest([t1, t2]), "n": 2,
+            "cls": "silent-sequence" if msgs else None,
+            "case": {"sequence": [[n1, k1, p1, t1], [n2, k2, p2, t2]]}}
+
+
+def _judge_mutant(job, use_cmake=True):
     name, kind, pos, text = job
     try:
         reflex.parse(text)
@@ -215,6 +240,14 @@ def run(ctx):
         picks = {0, len(lst) // 2, len(lst) - 1} if quick else set(range(0, len(lst), max(1, len(lst) // 12)))
         cli += [lst[i] for i in sorted(picks)]
     ctx.sweep(cli_case, cli, space="CLI subprocess (single file, directory, recursive directory)", selftest=0, chunk=1)
+    # process histories: every ordered pair out of a spread of judged mutants (first, middle, last of each fault kind on
+    # one base) documented in one process
+    spread = []
+    for k, lst in sorted(byk.items()):
+        if k[0] == "flat_sets":
+            spread += [lst[0], lst[len(lst) // 2], lst[-1]]
+    pairs = [(a, b) for a in spread for b in spread] if not quick else [(a, b) for a in spread[::2] for b in spread[::2]]
+    ctx.sweep(judge_sequence, pairs, space="two faulty modules in one process", selftest=0)
     ctx.cov["bounds"] = {"bases": list(BASES), "fault_kinds": 10, "cli_confirmations": len(cli)}
     ctx.assumptions += ["a mutant that cmake accepts (legacy unquoted forms, faults that re-pair with later text) is not judged",
                         "bad escapes inside function bodies are judged by the manual's rule alone (CMake checks them at execution)"]
@@ -230,6 +263,8 @@ def reflex_scan_ok(t):
 
 
 def replay(case):
+    if "sequence" in case:
+        return judge_sequence(tuple(tuple(x) for x in case["sequence"]))["viol"]
     job = (case["name"], case["kind"], case["pos"], case["text"])
     if case.get("cli"):
         return cli_case(job)["viol"]
